@@ -43,7 +43,9 @@ VerdictLineLength(rec) ==
       long == TooLong(rows) IN
   IF rec.obs.err = "CaptionLineLengthError" THEN
      IF long = <<>> THEN "LengthErrorWithoutLongLine"
-     ELSE IF \E k \in 1..Len(long) : ~(\E j \in 1..Len(rec.obs.named) : RTrim(LTrim(rec.obs.named[j])) = RTrim(LTrim(long[k])))
+     \* named = the row's characters; blanks are left out of the comparison (whether the cell of a
+     \* mid-row code shows as a blank is not settled by the requirement)
+     ELSE IF \E k \in 1..Len(long) : ~(\E j \in 1..Len(rec.obs.named) : NoSpaces(rec.obs.named[j]) = NoSpaces(long[k]))
           THEN "OffendingLineNotNamed"
      ELSE "ok"
   ELSE IF ~rec.obs.ok THEN "OtherError"
